@@ -22,6 +22,18 @@ CMPQ = {ast.Lt: "Qlt_bool {a} {b}", ast.Gt: "Qlt_bool {b} {a}", ast.LtE: "Qle_bo
 CMPZ = {ast.Lt: "Z.ltb {a} {b}", ast.Gt: "Z.ltb {b} {a}", ast.LtE: "Z.leb {a} {b}", ast.GtE: "Z.leb {b} {a}", ast.Eq: "Z.eqb {a} {b}", ast.NotEq: "negb (Z.eqb {a} {b})"}
 
 
+def coq_lit(t):
+    if '"' in t or "\n" in t:
+        raise Unsupported("string constant with quote/newline")
+    return "[]" if t == "" else f'(lit "{t}")'
+
+
+def coq_ch(t):
+    if len(t) != 1 or t == '"':
+        raise Unsupported("character constant")
+    return f'(ch "{t}")'
+
+
 def qconst(v):
     if isinstance(v, bool) or not isinstance(v, (int, float)):
         raise Unsupported(f"constant {v!r}")
@@ -53,6 +65,54 @@ class Env:
         """(coq, type)"""
         if ast.unparse(e) in self.exprs:
             return self.exprs[ast.unparse(e)]
+        if isinstance(e, ast.Constant) and isinstance(e.value, str):
+            return (coq_lit(e.value), "str")
+        if isinstance(e, ast.UnaryOp) and isinstance(e.op, ast.USub) and isinstance(e.operand, ast.Constant) and isinstance(e.operand.value, int):
+            return (f"(-{e.operand.value})", "lit")
+        if isinstance(e, ast.Call) and isinstance(e.func, ast.Attribute) and not e.keywords:
+            recv = None
+            try:
+                recv = self.term(e.func.value)
+            except Unsupported:
+                recv = None
+            if recv is not None and recv[1] == "str":
+                x, m, a = recv[0], e.func.attr, e.args
+                if m in ("find", "rfind") and len(a) == 1 and isinstance(a[0], ast.Constant) and isinstance(a[0].value, str):
+                    return (f"({m} {coq_lit(a[0].value)} {x})", "Z")
+                if m == "find" and len(a) == 2 and isinstance(a[0], ast.Constant) and isinstance(a[0].value, str):
+                    t, ty = self.term(a[1])
+                    if ty in ("Z", "lit"):
+                        return (f"(find_at {coq_lit(a[0].value)} {x} {t})", "Z")
+                if m in ("find", "rfind") and len(a) == 1 and isinstance(a[0], ast.Name):
+                    t, ty = self.term(a[0])
+                    if ty == "str":
+                        return (f"({m} {t} {x})", "Z")
+                if m == "count" and len(a) == 1 and isinstance(a[0], ast.Constant) and isinstance(a[0].value, str) and len(a[0].value) == 1:
+                    return (f"(count_char {coq_ch(a[0].value)} {x})", "Z")
+                if m == "strip" and len(a) == 0:
+                    return (f"(strip {x})", "str")
+                if m == "strip" and len(a) == 1 and isinstance(a[0], ast.Constant) and isinstance(a[0].value, str):
+                    return (f"(strip_chars {coq_lit(a[0].value)} {x})", "str")
+                raise Unsupported("string method " + m)
+        if isinstance(e, ast.Subscript) and isinstance(e.slice, ast.Slice) and e.slice.step is None:
+            x, tx = self.term(e.value)
+            if tx != "str":
+                raise Unsupported("slice of a non-string")
+            def bound(b):
+                if b is None:
+                    return "None"
+                t, ty = self.term(b)
+                if ty not in ("Z", "lit"):
+                    raise Unsupported("slice bound type " + ty)
+                return f"(Some {t}%Z)" if ty == "lit" else f"(Some {t})"
+            return (f"(slice {x} {bound(e.slice.lower)} {bound(e.slice.upper)})", "str")
+        if isinstance(e, ast.Call) and isinstance(e.func, ast.Name) and e.func.id == "len" and len(e.args) == 1 and not e.keywords:
+            try:
+                x, tx = self.term(e.args[0])
+            except Unsupported:
+                x, tx = None, None
+            if tx == "str":
+                return (f"(len {x})", "Z")
         if isinstance(e, ast.Constant):
             if e.value is None:
                 return ("None", "none")
@@ -105,8 +165,35 @@ class Env:
         if isinstance(e, ast.UnaryOp) and isinstance(e.op, ast.Not):
             return f"(negb {self.truth(e.operand)})"
         if isinstance(e, ast.Compare) and len(e.ops) == 1:
-            (a, ta), (b, tb) = self.term(e.left), self.term(e.comparators[0])
             o = type(e.ops[0])
+            def opt(x):
+                try:
+                    return self.term(x)
+                except Unsupported:
+                    if o in (ast.In, ast.NotIn):
+                        return ("", "?")
+                    raise
+            (a, ta), (b, tb) = opt(e.left), opt(e.comparators[0])
+            if o in (ast.In, ast.NotIn):
+                lft, rgt = e.left, e.comparators[0]
+                if isinstance(lft, ast.Constant) and isinstance(lft.value, str) and tb == "str":
+                    t = f"(contains {coq_lit(lft.value)} {b})"
+                elif ta == "str" and tb == "str" and isinstance(lft, ast.Name):
+                    t = f"(contains {a} {b})"
+                elif ta == "str" and tb == "strlist":
+                    t = f"(existsb (str_eqb {a}) {b})"
+                elif ta == "char" and isinstance(rgt, ast.Constant) and isinstance(rgt.value, str):
+                    t = f"(in_set {coq_lit(rgt.value)} {a})"
+                elif ta == "char" and tb == "charset":
+                    t = f"(in_set {b} {a})"
+                elif ta == "char" and isinstance(rgt, ast.Tuple) and all(isinstance(x, ast.Constant) and isinstance(x.value, str) and len(x.value) == 1 for x in rgt.elts):
+                    t = f"(in_set {coq_lit(''.join(x.value for x in rgt.elts))} {a})"
+                else:
+                    raise Unsupported("membership test " + ast.unparse(e)[:80])
+                return t if o is ast.In else f"(negb {t})"
+            if ta == "char" and isinstance(e.comparators[0], ast.Constant) and isinstance(e.comparators[0].value, str) and len(e.comparators[0].value) == 1 and o in (ast.Eq, ast.NotEq):
+                t = f"(Ascii.eqb {a} {coq_ch(e.comparators[0].value)})"
+                return t if o is ast.Eq else f"(negb {t})"
             if ta == "str" and tb == "str" and o in (ast.Eq, ast.NotEq):
                 t = f"(str_eqb {a} {b})"
                 return t if o is ast.Eq else f"(negb {t})"
@@ -137,10 +224,18 @@ class Env:
 class Cut(ast.NodeTransformer):
     """replaces the decision expressions (If.test) and all messages by placeholders, records the expressions"""
 
-    def __init__(self, returns=False):
+    def __init__(self, returns=False, values=()):
         self.tests = []
         self.returns = returns      # also cut the expressions of `return <expr>` (recorded in self.rets)
         self.rets = []
+        self.values = set(values)   # also cut the right-hand sides assigned to these targets (recorded in self.vals)
+        self.vals = []
+
+    def visit_Assign(self, node):
+        if len(node.targets) == 1 and ast.unparse(node.targets[0]) in self.values and not isinstance(node.value, ast.Constant):
+            self.vals.append((ast.unparse(node.targets[0]), node.value))
+            return ast.Assign(targets=node.targets, value=ast.Name(id=f"VAL{len(self.vals) - 1}", ctx=ast.Load()), lineno=0)
+        return node
 
     def visit_Return(self, node):
         if self.returns and node.value is not None and not isinstance(node.value, (ast.Name, ast.Constant)):
@@ -879,6 +974,781 @@ def translate_distlaw(distribution_py):
     return "\n".join(out) + "\n"
 
 
+class Prune(ast.NodeTransformer):
+    """drops the statements of attach_other that only place the new atoms in space (not modelled: 3-D alignment): assignments to the
+    scratch names below, loops / ifs that become empty, calls on a conformer"""
+    SCRATCH = {"self_bond_point", "other_bond_point", "rcm", "rg2", "rg_len", "offset", "old_pos", "new_pos"}
+
+    def _scratch_target(self, t):
+        return isinstance(t, ast.Name) and t.id in self.SCRATCH
+
+    def visit_Assign(self, node):
+        return None if all(self._scratch_target(t) for t in node.targets) else node
+
+    def visit_AugAssign(self, node):
+        return None if self._scratch_target(node.target) else node
+
+    def visit_Expr(self, node):
+        return None if "GetConformer" in ast.unparse(node) else node
+
+    def visit_For(self, node):
+        body = [x for x in (self.visit(s) for s in node.body) if x is not None]
+        if not body:
+            return None
+        node.body = body
+        return node
+
+    def visit_If(self, node):
+        body = [x for x in (self.visit(s) for s in node.body) if x is not None]
+        orelse = [x for x in (self.visit(s) for s in node.orelse) if x is not None]
+        if not body and not orelse:
+            return None if set(n.id for n in ast.walk(node.test) if isinstance(n, ast.Name)) <= self.SCRATCH else node
+        node.body, node.orelse = body or [ast.Pass()], orelse
+        return node
+
+
+ATTACH_SKELETON = '''if TEST0:
+    raise RuntimeError
+if TEST1:
+    raise RuntimeError
+current_atom_number = len(self._mol.GetAtoms())
+other_bond_descriptors = copy.deepcopy(other.bond_descriptors)
+if TEST2:
+    print(self.bond_descriptors)
+    raise RuntimeError
+self_graph_len = len(self.graph)
+for bd in other_bond_descriptors:
+    bd.atom_bonding_to += current_atom_number
+    bd.node_idx += self_graph_len
+new_mol = Chem.CombineMols(self._mol, other._mol)
+new_mol = Chem.EditableMol(new_mol)
+new_mol.AddBond(self.bond_descriptors[self_bond_idx].atom_bonding_to, other_bond_descriptors[other_bond_idx].atom_bonding_to, self.bond_descriptors[self_bond_idx].bond_type)
+self.graph = nx.disjoint_union(self.graph, other.graph)
+self.graph.add_edge(self.bond_descriptors[self_bond_idx].node_idx, other_bond_descriptors[other_bond_idx].node_idx, bond_type=self.bond_descriptors[self_bond_idx].bond_type)
+del self.bond_descriptors[self_bond_idx]
+del other_bond_descriptors[other_bond_idx]
+self.bond_descriptors += other_bond_descriptors
+self._mol = new_mol.GetMol()
+return self'''
+
+
+def translate_attach(mol_gen_py):
+    """mol_gen.py: MolGen.attach_other without the statements that place the atoms in space, fully_generated -> Src/SrcAttach.v"""
+    mod = ast.parse(open(mol_gen_py).read())
+    cls = _class(mod, "MolGen")
+    fn = _method(cls, "attach_other", [])
+    if [a.arg for a in fn.args.args] != ["self", "self_bond_idx", "other", "other_bond_idx"] or fn.args.defaults:
+        raise Unsupported("signature of MolGen.attach_other")
+    fn.body = [x for x in (Prune().visit(s) for s in fn.body) if x is not None]
+    sk, ts = skeleton(fn)
+    if not same_skeleton(sk, ATTACH_SKELETON) or len(ts) != 3:
+        import difflib
+        d = [l for l in difflib.unified_diff(ATTACH_SKELETON.split("\n"), sk.split("\n"), lineterm="", n=0) if not l.startswith(("---", "+++", "@@"))]
+        raise Unsupported("statement skeleton of MolGen.attach_other (3-D placement left out) changed: " + " / ".join(d[:6]))
+    env = Env({"self_bond_idx": ("(Z.of_nat i)", "Z"), "other_bond_idx": ("(Z.of_nat j)", "Z"), "len(self.bond_descriptors)": ("(Z.of_nat nself)", "Z"),
+               "len(other.bond_descriptors)": ("(Z.of_nat nother)", "Z")}, {},
+              {"other_bond_descriptors[other_bond_idx].is_compatible(self.bond_descriptors[self_bond_idx])": ("(is_compatible b a)", "bool")})
+    fg = _method(cls, "fully_generated", ["property"])
+    body = [x for x in fg.body if not (isinstance(x, ast.Expr) and isinstance(x.value, ast.Constant))]
+    if len(body) != 1 or not isinstance(body[0], ast.Return):
+        raise Unsupported("MolGen.fully_generated")
+    out = [
+        "(* generated by harness/translate_sys.py from mol_gen.py (MolGen.attach_other, fully_generated) -- do not edit *)",
+        "From Coq Require Import List ZArith QArith Bool.",
+        "From GBS Require Import Model.PyStr Model.Num Model.Bond Src.SrcBond.",
+        "(* a: the descriptor of this molecule that binds, b: the one of the attached fragment; is_compatible is regenerated from bond.py *)",
+        f"Definition self_idx_bad (i nself : nat) : bool := {env.truth(ts[0])}.",
+        f"Definition other_idx_bad (j nother : nat) : bool := {env.truth(ts[1])}.",
+        f"Definition attach_refused (a b : descr) : bool := {env.truth(ts[2])}.",
+        f"Definition fully_generated_src (nself : nat) : bool := {env.truth(body[0].value)}.",
+    ]
+    return "\n".join(out) + "\n"
+
+
+RGRAPH_SKELETON = '''def validate_graph(graph):
+    for node in graph:
+        weight = 0
+        prob = 0
+        term_prob = 0
+        trans_prob = 0
+        edges = graph.edges(node)
+        for edge in edges:
+            edge_data = graph.get_edge_data(*edge)
+            weight += edge_data.get('weight', 0)
+            prob += edge_data.get('prob', 0)
+            term_prob += edge_data.get('term_prob', 0)
+            trans_prob += edge_data.get('trans_prob', 0)
+    if TEST0:
+        raise RuntimeError
+    if TEST1:
+        raise RuntimeError
+    if TEST2:
+        raise RuntimeError
+residues = {}
+for element in self._elements:
+    if TEST3:
+        residues[element] = element
+    elif TEST4:
+        for res in element.repeat_tokens + element.end_tokens:
+            residues[res] = element
+    else:
+        raise RuntimeError
+G = nx.DiGraph(big_smiles=str(self))
+bond_descriptors = {}
+for res in residues:
+    try:
+        G.add_node(res, smiles=str(res), distribution=residues[res].distribution)
+    except AttributeError:
+        G.add_node(res, smiles=str(res))
+    for bd in res.bond_descriptors:
+        bond_descriptors[bd] = res
+        G.add_node(bd, weight=bd.weight)
+    for bd in res.bond_descriptors:
+        if TEST5:
+            G.add_edge(res, bd, atom=bd.atom_bonding_to)
+for graph_bd in bond_descriptors:
+    element = residues[bond_descriptors[graph_bd]]
+    if TEST6:
+        prob = graph_bd.transitions / graph_bd.weight
+        for i, p in enumerate(prob):
+            other_bd = element.bond_descriptors[i]
+            if TEST7:
+                G.add_edge(graph_bd, other_bd, prob=p)
+    elif TEST8:
+        repeat_weight = 0
+        end_weight = 0
+        for element_bd in element.bond_descriptors:
+            if TEST9:
+                if TEST10:
+                    repeat_weight += element_bd.weight
+                if TEST11:
+                    end_weight += element_bd.weight
+        for element_bd in element.bond_descriptors:
+            if TEST12:
+                if TEST13:
+                    G.add_edge(graph_bd, element_bd, prob=element_bd.weight / repeat_weight)
+                if TEST14:
+                    G.add_edge(graph_bd, element_bd, term_prob=element_bd.weight / end_weight)
+for graph_bd in bond_descriptors:
+    res = bond_descriptors[graph_bd]
+    element_id = -1
+    for i, element in enumerate(self._elements):
+        if TEST15:
+            element_id = i
+            break
+        if TEST16:
+            if TEST17:
+                element_id = i
+                break
+    if TEST18:
+        element = self._elements[element_id]
+        next_element = self._elements[element_id + 1]
+        if TEST19:
+            for other_bd in next_element.bond_descriptors:
+                if TEST20:
+                    G.add_edge(graph_bd, other_bd, trans_prob=1.0)
+        if TEST21:
+            total_weight = 0
+            for other_bd in next_element.bond_descriptors:
+                if TEST22:
+                    total_weight += other_bd.weight
+            if TEST23:
+                total_weight = 1
+            for other_bd in next_element.bond_descriptors:
+                if TEST24:
+                    G.add_edge(graph_bd, other_bd, trans_prob=other_bd.weight / total_weight)
+        if TEST25:
+            for other_bd in next_element.bond_descriptors:
+                if TEST26:
+                    G.add_edge(graph_bd, other_bd, trans_prob=1.0)
+        if TEST27:
+            total_weight = 0
+            for other_bd in next_element.bond_descriptors:
+                if TEST28:
+                    total_weight += other_bd.weight
+            if TEST29:
+                total_weight = 1
+            for other_bd in next_element.bond_descriptors:
+                if TEST30:
+                    G.add_edge(graph_bd, other_bd, trans_prob=other_bd.weight / total_weight)
+validate_graph(G)
+return G'''
+
+RGRAPH_PINNED = {0: "not (abs(prob - 1) < 1e-06 or abs(prob) < 1e-06)", 1: "not (abs(term_prob - 1) < 1e-06 or abs(term_prob) < 1e-06)",
+                 2: "not (abs(trans_prob - 1) < 1e-06 or abs(trans_prob) < 1e-06)", 3: "isinstance(element, SmilesToken)", 4: "isinstance(element, Stochastic)",
+                 5: "bd.weight >= 0", 6: "graph_bd.transitions is not None", 8: "isinstance(element, Stochastic)", 15: "res == element",
+                 16: "isinstance(element, Stochastic)", 17: "res in element.repeat_tokens + element.end_tokens", 18: "element_id < len(self._elements) - 1",
+                 19: "isinstance(element, SmilesToken) and isinstance(next_element, SmilesToken)", 21: "isinstance(element, SmilesToken) and isinstance(next_element, Stochastic)",
+                 25: "isinstance(element, Stochastic) and isinstance(next_element, SmilesToken)", 27: "isinstance(element, Stochastic) and isinstance(next_element, Stochastic)"}
+
+
+def translate_rgraph(molecule_py):
+    """molecule.py: Molecule.gen_reaction_graph -> Src/SrcRGraph.v (the weight / compatibility / membership decisions; the type dispatch and
+    the validation thresholds are compared as text)"""
+    mod = ast.parse(open(molecule_py).read())
+    fn = _method(_class(mod, "Molecule"), "gen_reaction_graph", [])
+    ts = _check_fn(fn, ["self"], [], RGRAPH_SKELETON, 31, "Molecule.gen_reaction_graph")
+    for k, text in RGRAPH_PINNED.items():
+        if ast.dump(ts[k]) != ast.dump(ast.parse(text, mode="eval").body):
+            raise Unsupported(f"decision {k} of gen_reaction_graph changed: {ast.unparse(ts[k])[:120]}")
+    ex = {"graph_bd.is_compatible(element_bd)": ("(is_compatible d o)", "bool"), "graph_bd.is_compatible(other_bd)": ("(is_compatible d o)", "bool"),
+          "other_bd.is_compatible(next_element.left_terminal)": ("(is_compatible o left)", "bool"),
+          "graph_bd.is_compatible(element.right_terminal)": ("(is_compatible d right)", "bool"),
+          # a descriptor belongs to a repeat token iff its position among the element's descriptors is below the number of repeat descriptors (Model/RGraph.v)
+          "bond_descriptors[element_bd] in element.repeat_tokens": ("(Nat.ltb k nr)", "bool"), "bond_descriptors[element_bd] in element.end_tokens": ("(negb (Nat.ltb k nr))", "bool"),
+          "bond_descriptors[other_bd] in next_element.repeat_tokens": ("(Nat.ltb k nnr)", "bool"), "bond_descriptors[graph_bd] in element.repeat_tokens": ("(Nat.ltb j nr)", "bool")}
+    env = Env({"p": ("p", "Q"), "total_weight": ("tot", "Q")}, {"element_bd.weight": ("(wq o)", "Q"), "other_bd.weight": ("(wq o)", "Q")}, ex)
+    T = {k: env.truth(ts[k]) for k in range(31) if k not in RGRAPH_PINNED}
+    out = [
+        "(* generated by harness/translate_sys.py from molecule.py (Molecule.gen_reaction_graph) -- do not edit *)",
+        "From Coq Require Import List ZArith QArith Bool Arith.",
+        "From GBS Require Import Model.PyStr Model.Num Model.Bond Model.Sys Model.Select Model.Gen Model.RGraph Src.SrcBond.",
+        "Open Scope Q_scope.",
+        "(* d: the descriptor the edges leave; o: a candidate at position k; nr / nnr: number of repeat descriptors of the element / of the next element;",
+        "   j: position of d; left / right: terminals.  is_compatible is the function regenerated from bond.py *)",
+        f"Definition list_edge_ok (p : Q) : bool := {T[7]}.",
+        f"Definition sum_counts (d o : descr) : bool := {T[9]}.",
+        f"Definition sum_repeat (k nr : nat) : bool := {T[10]}.",
+        f"Definition sum_end (k nr : nat) : bool := {T[11]}.",
+        f"Definition edge_counts (d o : descr) : bool := {T[12]}.",
+        f"Definition edge_repeat (k nr : nat) : bool := {T[13]}.",
+        f"Definition edge_end (k nr : nat) : bool := {T[14]}.",
+        f"Definition tt_edge (d o : descr) : bool := {T[20]}.",
+        f"Definition ts_sum (d o left : descr) (k nnr : nat) : bool := {T[22]}.",
+        f"Definition ts_floor (tot : Q) : bool := {T[23]}.",
+        f"Definition ts_edge (d o left : descr) (k nnr : nat) : bool := {T[24]}.",
+        f"Definition st_edge (d o right : descr) (j nr : nat) : bool := {T[26]}.",
+        f"Definition ss_sum (d o left right : descr) (k nnr j nr : nat) : bool := {T[28]}.",
+        f"Definition ss_floor (tot : Q) : bool := {T[29]}.",
+        f"Definition ss_edge (d o left right : descr) (k nnr j nr : nat) : bool := {T[30]}.",
+    ]
+    return "\n".join(out) + "\n"
+
+
+def skeleton_v(fn, values):
+    c = Cut(values=values)
+    body = [c.visit(x) for x in fn.body]
+    return "\n".join(ast.unparse(ast.fix_missing_locations(x)) for x in body if not isinstance(x, ast.Pass)), c.tests, c.vals
+
+
+DESCR_SKELETON = '''self._raw_text = VAL0
+self.descriptor = ''
+self.descriptor_id = ''
+self.descriptor_num = int(descr_num)
+self.weight = 1.0
+self.transitions = None
+self.preceding_characters = preceding_characters
+self.bond_type = rc.BondType.UNSPECIFIED
+self.bond_stereo = rc.BondStereo.STEREOANY
+if TEST0:
+    return
+if TEST1:
+    self.preceding_characters = self._raw_text[:self._raw_text.find('[')]
+    self._raw_text = VAL1
+self.atom_bonding_to = atom_bonding_to
+if TEST2:
+    self.atom_bonding_to = int(self.atom_bonding_to)
+if TEST3:
+    raise RuntimeError
+if TEST4:
+    raise RuntimeError
+self.descriptor = self._raw_text[1]
+id_end = VAL2
+if TEST5:
+    id_end = VAL3
+id_str = VAL4
+if TEST6:
+    raise RuntimeError
+self.descriptor_id = ''
+if TEST7:
+    self.descriptor_id = int(id_str.strip())
+self.weight = 1.0
+self.transitions = None
+if TEST8:
+    if TEST9:
+        raise RuntimeError
+    if TEST10:
+        raise RuntimeError
+    weight_string = VAL5
+    weight_string = VAL6
+    weight_list = [float(w) for w in weight_string.split()]
+    if TEST11:
+        raise RuntimeError
+    if TEST12:
+        self.weight = weight_list[0]
+    else:
+        self.transitions = np.asarray(weight_list)
+        self.weight = self.transitions.sum()
+self.preceding_characters = preceding_characters
+self.bond_type = rc.BondType.SINGLE
+if TEST13:
+    self.bond_type = rc.BondType.DOUBLE
+if TEST14:
+    self.bond_type = rc.BondType.TRIPLE
+if TEST15:
+    self.bond_type = rc.BondType.QUADRUPLE
+if TEST16:
+    self.bond_type = rc.BondType.ONEANDAHALF
+self.bond_stereo = rc.BondStereo.STEREOANY
+if TEST17:
+    raise RuntimeError'''
+
+DESCR_PINNED_TESTS = {2: "self.atom_bonding_to is not None", 13: "'=' in self.preceding_characters", 14: "'#' in self.preceding_characters",
+                      15: "'$' in self.preceding_characters", 16: "':' in self.preceding_characters"}
+
+
+def translate_descr(bond_py):
+    """bond.py: BondDescriptor.__init__ -> Src/SrcDescr.v (every string expression and decision of the descriptor parser; the bond-order
+    chain is translated separately into Src/SrcBond.v)"""
+    mod = ast.parse(open(bond_py).read())
+    fn = _method(_class(mod, "BondDescriptor"), "__init__", [])
+    if [a.arg for a in fn.args.args] != ["self", "big_smiles_ext", "descr_num", "preceding_characters", "atom_bonding_to"] or fn.args.defaults:
+        raise Unsupported("signature of BondDescriptor.__init__")
+    sk, ts, vs = skeleton_v(fn, {"self._raw_text", "id_end", "id_str", "weight_string"})
+    if not same_skeleton(sk, DESCR_SKELETON) or len(ts) != 18 or len(vs) != 7:
+        import difflib
+        d = [l for l in difflib.unified_diff(DESCR_SKELETON.split("\n"), sk.split("\n"), lineterm="", n=0) if not l.startswith(("---", "+++", "@@"))]
+        raise Unsupported("statement skeleton of BondDescriptor.__init__ changed: " + " / ".join(d[:6]))
+    for k, text in DESCR_PINNED_TESTS.items():
+        if ast.dump(ts[k]) != ast.dump(ast.parse(text, mode="eval").body):
+            raise Unsupported(f"decision {k} of BondDescriptor.__init__ changed: {ast.unparse(ts[k])[:100]}")
+    if ast.unparse(vs[0][1]) != "big_smiles_ext" or ast.dump(ts[5]) != ast.dump(ts[8]):
+        raise Unsupported("BondDescriptor.__init__: raw text source / the two bar tests differ")
+    env = Env({"len(weight_list)": ("(Z.of_nat nw)", "Z"), "id_end": ("id_end", "Z")},
+              {"self._raw_text": ("raw", "str"), "preceding_characters": ("pre", "str"), "self.preceding_characters": ("pre", "str"), "id_str": ("ids", "str"),
+               "weight_string": ("ws", "str")},
+              {"self._raw_text[0]": ("c0", "char"), "self._raw_text[-1]": ("cl", "char"), "self._raw_text[1]": ("c1", "char")})
+    def val(k, ty):
+        t, got = env.term(vs[k][1])
+        if got != ty and not (ty == "Z" and got == "lit"):
+            raise Unsupported(f"value {k} of BondDescriptor.__init__ has type {got}")
+        return f"({t})%Z" if ty == "Z" else t
+    T = {k: env.truth(ts[k]) for k in range(18) if k not in DESCR_PINNED_TESTS}
+    out = [
+        "(* generated by harness/translate_sys.py from bond.py (BondDescriptor.__init__) -- do not edit *)",
+        "From Coq Require Import List ZArith Ascii String Bool.",
+        "From GBS Require Import Model.PyStr Model.Num Model.Bond.",
+        "Open Scope Z_scope.",
+        "(* raw: self._raw_text; pre: preceding_characters; c0 / cl / c1: raw[0], raw[-1], raw[1] (IndexError where absent: Model/Bond.v);",
+        "   ids: id_str; ws: weight_string; nw: len(weight_list) *)",
+        f"Definition d_is_empty (raw : str) : bool := {T[0]}.",
+        f"Definition d_no_pre (pre : str) : bool := {T[1]}.",
+        f"Definition d_raw_cut (raw : str) : str := {val(1, 'str')}.",
+        f"Definition d_brackets_bad (c0 cl : ascii) : bool := {T[3]}.",
+        f"Definition d_symbol_bad (c1 : ascii) : bool := {T[4]}.",
+        f"Definition d_has_bar (raw : str) : bool := {T[5]}.",
+        f"Definition d_id_end_default : Z := {val(2, 'Z')}.",
+        f"Definition d_id_end (raw : str) : Z := {val(3, 'Z')}.",
+        f"Definition d_id_text (raw : str) (id_end : Z) : str := {val(4, 'str')}.",
+        f"Definition d_nested (ids : str) : bool := {T[6]}.",
+        f"Definition d_has_id (ids : str) : bool := {T[7]}.",
+        f"Definition d_bars_bad (raw : str) : bool := {T[9]}.",
+        f"Definition d_tail_bad (raw : str) : bool := {T[10]}.",
+        f"Definition d_weight_text (raw : str) : str := {val(5, 'str')}.",
+        f"Definition d_weight_strip (ws : str) : str := {val(6, 'str')}.",
+        f"Definition d_no_weights (nw : nat) : bool := {T[11]}.",
+        f"Definition d_one_weight (nw : nat) : bool := {T[12]}.",
+        f"Definition d_stereo (pre : str) : bool := {T[17]}.",
+    ]
+    return "\n".join(out) + "\n"
+
+
+TOKEN_SKELETON = '''self.res_id = res_id
+bond_id_offset = int(bond_id_offset)
+if TEST0:
+    raise RuntimeError
+self._raw_text = VAL0
+if TEST1:
+    raise RuntimeError
+elements = []
+current_string = VAL1
+sub_string = ''
+total_atom_number = 0
+while TEST2:
+    if TEST3:
+        atom = Atom(current_string[:2])
+        total_atom_number += 1
+        if TEST4:
+            elements.append(sub_string)
+            sub_string = ''
+        elements.append(atom)
+        current_string = VAL2
+        continue
+    if TEST5:
+        atom = Atom(current_string[0])
+        total_atom_number += 1
+        if TEST6:
+            elements.append(sub_string)
+            sub_string = ''
+        elements.append(atom)
+        current_string = VAL3
+        continue
+    if TEST7:
+        if TEST8:
+            raise RuntimeError
+        token = VAL4
+        current_string = VAL5
+        if TEST9:
+            sub_string += token
+        else:
+            atom = Atom(token)
+            total_atom_number += 1
+            if TEST10:
+                elements.append(sub_string)
+                sub_string = ''
+            elements.append(atom)
+        continue
+    sub_string += current_string[0]
+    current_string = VAL6
+if TEST11:
+    elements.append(sub_string)
+atoms = []
+atom_to_bond = [-1]
+bond_descriptors = []
+element_counter = 0
+while TEST12:
+    element = elements[element_counter]
+    if TEST13:
+        atoms.append(element)
+        atom_to_bond[-1] = len(atoms) - 1
+    elif TEST14:
+        if TEST15:
+            if TEST16:
+                raise RuntimeError
+            if TEST17:
+                raise RuntimeError
+            elementA = VAL7
+            bond_text = VAL8
+            elementB = VAL9
+            atom_to_bond = _push_pop_atom_branch(elementA, atom_to_bond)
+            if TEST18:
+                atom_bonding_to = VAL10
+                if TEST19:
+                    atom_bonding_to = 0
+            else:
+                raise RuntimeError
+            if TEST20:
+                if TEST21:
+                    if TEST22:
+                        if TEST23:
+                            raise RuntimeError
+            first_half = elements[:element_counter]
+            second_half = elements[element_counter + 1:]
+            elements = first_half
+            if TEST24:
+                elements.append(elementA)
+            preceding_characters = VAL11
+            if TEST25:
+                preceding_characters = VAL12
+            if TEST26:
+                following_characters = VAL13
+                for stop in (')', '['):
+                    if TEST27:
+                        following_characters = VAL14
+                preceding_characters += following_characters
+            bond = BondDescriptor(bond_text, len(bond_descriptors) + bond_id_offset, preceding_characters, atom_bonding_to)
+            elements.append(bond)
+            bond_descriptors.append(bond)
+            if TEST28:
+                elements.append(elementB)
+            elements += second_half
+        else:
+            atom_to_bond = _push_pop_atom_branch(element, atom_to_bond)
+    element_counter += 1
+self.elements = elements
+self.atoms = atoms
+self.bond_descriptors = bond_descriptors'''
+
+PUSHPOP_SKELETON = '''for character in string:
+    if TEST0:
+        atom_to_bond.append(atom_to_bond[-1])
+    if TEST1:
+        atom_to_bond.pop(-1)
+return atom_to_bond'''
+
+TOKEN_PINNED = {13: "isinstance(element, Atom)", 14: "not isinstance(elements[element_counter], BondDescriptor)"}
+TOKEN_VALUES = {"self._raw_text", "token", "current_string", "elementA", "bond_text", "elementB", "preceding_characters", "following_characters", "atom_bonding_to"}
+
+
+def _module_tuple(mod, name):
+    r = [n for n in mod.body if isinstance(n, ast.Assign) and len(n.targets) == 1 and isinstance(n.targets[0], ast.Name) and n.targets[0].id == name]
+    if len(r) != 1 or not isinstance(r[0].value, ast.Tuple) or not all(isinstance(x, ast.Constant) and isinstance(x.value, str) for x in r[0].value.elts):
+        raise Unsupported("module constant " + name)
+    return [x.value for x in r[0].value.elts]
+
+
+def translate_token(token_py):
+    """token.py: SmilesToken.__init__ and _push_pop_atom_branch -> Src/SrcToken.v (every string expression and decision of the token parser)"""
+    mod = ast.parse(open(token_py).read())
+    dbl = _module_tuple(mod, "_SMILES_DOUBLE_LETTER_ATOM")
+    sgl = _module_tuple(mod, "_SMILES_SINGLE_LETTER_ATOM")
+    if any(len(x) != 2 for x in dbl) or any(len(x) != 1 for x in sgl):
+        raise Unsupported("atom letter tables")
+    pp = _check_fn(_module_fn(mod, "_push_pop_atom_branch"), ["string", "atom_to_bond"], [], PUSHPOP_SKELETON, 2, "_push_pop_atom_branch")
+    fn = _method(_class(mod, "SmilesToken"), "__init__", [])
+    if [a.arg for a in fn.args.args] != ["self", "big_smiles_ext", "bond_id_offset", "res_id"] or fn.args.defaults:
+        raise Unsupported("signature of SmilesToken.__init__")
+    sk, ts, vs = skeleton_v(fn, TOKEN_VALUES)
+    if not same_skeleton(sk, TOKEN_SKELETON) or len(ts) != 29 or len(vs) != 15:
+        import difflib
+        d = [l for l in difflib.unified_diff(TOKEN_SKELETON.split("\n"), sk.split("\n"), lineterm="", n=0) if not l.startswith(("---", "+++", "@@"))]
+        raise Unsupported("statement skeleton of SmilesToken.__init__ changed: " + " / ".join(d[:6]))
+    for k, text in TOKEN_PINNED.items():
+        if ast.dump(ts[k]) != ast.dump(ast.parse(text, mode="eval").body):
+            raise Unsupported(f"decision {k} of SmilesToken.__init__ changed")
+    same = lambda i, j: ast.dump(ts[i]) == ast.dump(ts[j])
+    if not (same(4, 6) and same(4, 10)) or ast.dump(vs[3][1]) != ast.dump(vs[6][1]):
+        raise Unsupported("SmilesToken.__init__: the three flush tests / the two one-character steps differ")
+    env = Env({"bond_id_offset": ("off", "Z"), "element_counter": ("(Z.of_nat pos)", "Z"), "len(elements)": ("(Z.of_nat n)", "Z"), "atom_bonding_to": ("top", "Z"),
+               "atom_to_bond[-1]": ("top", "Z")},
+              {"big_smiles_ext": ("text", "str"), "self._raw_text": ("raw", "str"), "current_string": ("cur", "str"), "sub_string": ("sub", "str"), "token": ("tok", "str"),
+               "element": ("el", "str"), "elementA": ("A", "str"), "elementB": ("B", "str"), "preceding_characters": ("pre", "str"),
+               "following_characters": ("fol", "str"), "stop": ("stop", "str"), "_SMILES_DOUBLE_LETTER_ATOM": ("double_letters", "strlist"),
+               "_SMILES_SINGLE_LETTER_ATOM": ("single_letter_set", "charset"), "character": ("c", "char")},
+              {"current_string[0]": ("c", "char")})
+    def val(k, ty):
+        t, got = env.term(vs[k][1])
+        if got != ty:
+            raise Unsupported(f"value {k} of SmilesToken.__init__ has type {got}")
+        return t
+    T = {k: env.truth(ts[k]) for k in range(29) if k not in TOKEN_PINNED}
+    P = [env.truth(t) for t in pp]
+    out = [
+        "(* generated by harness/translate_sys.py from token.py (SmilesToken.__init__, _push_pop_atom_branch, the atom letter tables) -- do not edit *)",
+        "From Coq Require Import List ZArith Ascii String Bool.",
+        "From GBS Require Import Model.PyStr Model.Num Model.Bond.",
+        "Import ListNotations. Open Scope Z_scope.",
+        "Definition double_letters : list str := [" + "; ".join(coq_lit(x) for x in dbl) + "].",
+        "Definition single_letter_set : str := " + coq_lit("".join(sgl)) + ".",
+        "(* text: big_smiles_ext; cur: current_string; c: its first character; sub: sub_string; tok: the bracket group; el / A / B: an element and its",
+        "   parts around the descriptor; pos: element_counter; n: len(elements); top: atom_to_bond[-1]; pre / fol / stop: bond characters *)",
+        f"Definition tk_offset_bad (off : Z) : bool := {T[0]}.",
+        f"Definition tk_raw (text : str) : str := {val(0, 'str')}.",
+        f"Definition tk_unbalanced (text : str) : bool := {T[1]}.",
+        f"Definition tk_more (cur : str) : bool := {T[2]}.",
+        f"Definition tk_double (cur : str) : bool := {T[3]}.",
+        f"Definition tk_flush (sub : str) : bool := {T[4]}.",
+        f"Definition tk_single (c : ascii) : bool := {T[5]}.",
+        f"Definition tk_open (c : ascii) : bool := {T[7]}.",
+        f"Definition tk_unclosed (cur : str) : bool := {T[8]}.",
+        f"Definition tk_is_descr (tok : str) : bool := {T[9]}.",
+        f"Definition tk_flush_last (sub : str) : bool := {T[11]}.",
+        f"Definition tk_rest2 (cur : str) : str := {val(2, 'str')}.",
+        f"Definition tk_rest1 (cur : str) : str := {val(3, 'str')}.",
+        f"Definition tk_group (cur : str) : str := {val(4, 'str')}.",
+        f"Definition tk_after_group (cur : str) : str := {val(5, 'str')}.",
+        f"Definition tk_in_range (pos n : nat) : bool := {T[12]}.",
+        f"Definition tk_el_is_descr (el : str) : bool := {T[15]}.",
+        f"Definition tk_no_open (el : str) : bool := {T[16]}.",
+        f"Definition tk_no_close (el : str) : bool := {T[17]}.",
+        f"Definition tk_A (el : str) : str := {val(7, 'str')}.",
+        f"Definition tk_bond_text (el : str) : str := {val(8, 'str')}.",
+        f"Definition tk_B (el : str) : str := {val(9, 'str')}.",
+        f"Definition tk_dot_free (A : str) : bool := {T[18]}.",
+        f"Definition tk_top_negative (top : Z) : bool := {T[19]}.",
+        f"Definition tk_not_first (pos : nat) : bool := {T[20]}.",
+        f"Definition tk_not_last (pos n : nat) : bool := {T[21]}.",
+        f"Definition tk_no_branch_close (B : str) : bool := {T[22]}.",
+        f"Definition tk_no_dot_after (B : str) : bool := {T[23]}.",
+        f"Definition tk_keep_A (A : str) : bool := {T[24]}.",
+        f"Definition tk_pre_has_open (pre : str) : bool := {T[25]}.",
+        f"Definition tk_pre_after_open (pre : str) : str := {val(12, 'str')}.",
+        f"Definition tk_is_first (pos : nat) : bool := {T[26]}.",
+        f"Definition tk_stop_in (stop fol : str) : bool := {T[27]}.",
+        f"Definition tk_cut_at (stop fol : str) : str := {val(14, 'str')}.",
+        f"Definition tk_keep_B (B : str) : bool := {T[28]}.",
+        f"Definition pp_push (c : ascii) : bool := {P[0]}.",
+        f"Definition pp_pop (c : ascii) : bool := {P[1]}.",
+    ]
+    if ast.unparse(vs[1][1]) != "self._raw_text" or ast.unparse(vs[10][1]) != "atom_to_bond[-1]" or ast.unparse(vs[11][1]) != "elementA" or ast.unparse(vs[13][1]) != "elementB":
+        raise Unsupported("SmilesToken.__init__: plain copies changed")
+    return "\n".join(out) + "\n"
+
+
+STOCH_INIT_SKELETON = '''self._raw_text = VAL0
+self._generable = True
+if TEST0:
+    raise RuntimeError
+if TEST1:
+    raise RuntimeError
+middle_text = VAL1
+if TEST2:
+    raise RuntimeError
+if TEST3:
+    raise RuntimeError
+bond_text = VAL2
+preceding_characters = VAL3
+self.bond_descriptors = []
+bond = BondDescriptor(bond_text, len(self.bond_descriptors), preceding_characters, None)
+self.left_terminal = bond
+i = VAL4
+right_bond_text = VAL5
+while TEST4:
+    i -= 1
+right_preceding_char = VAL6
+if TEST5:
+    repeat_unit_text = VAL7
+    end_group_text = VAL8
+else:
+    repeat_unit_text = VAL9
+    end_group_text = ''
+self.repeat_tokens = []
+self.repeat_bonds = []
+self.repeat_bond_token_idx = []
+res_id_counter = 0
+for ru in repeat_unit_text.split(','):
+    ru = VAL10
+    if TEST6:
+        token = SmilesToken(ru, len(self.bond_descriptors), res_id_prefix + res_id_counter)
+        res_id_counter += 1
+        self.repeat_tokens.append(token)
+        self.bond_descriptors += token.bond_descriptors
+        self.repeat_bonds += token.bond_descriptors
+        for _ in range(len(token.bond_descriptors)):
+            self.repeat_bond_token_idx.append(len(self.repeat_tokens) - 1)
+self.end_tokens = []
+self.end_bonds = []
+self.end_bond_token_idx = []
+for eg in end_group_text.split(','):
+    eg = VAL11
+    if TEST7:
+        token = SmilesToken(eg, len(self.bond_descriptors), res_id_prefix + res_id_counter)
+        res_id_counter += 1
+        self.end_tokens.append(token)
+        self.bond_descriptors += token.bond_descriptors
+        self.end_bonds += token.bond_descriptors
+        for _ in range(len(token.bond_descriptors)):
+            self.end_bond_token_idx.append(len(self.end_tokens) - 1)
+right_terminal_token = BondDescriptor(right_bond_text, len(self.bond_descriptors), right_preceding_char, None)
+self.right_terminal = right_terminal_token
+end_text = VAL12
+if TEST8:
+    distribution_text = VAL13
+else:
+    distribution_text = VAL14
+self.distribution = None
+if TEST9:
+    self.distribution = get_distribution(distribution_text)
+self._validate()'''
+
+STOCH_VALUES = {"self._raw_text", "middle_text", "bond_text", "preceding_characters", "i", "right_bond_text", "right_preceding_char", "repeat_unit_text",
+                "end_group_text", "end_text", "distribution_text", "ru", "eg"}
+
+
+def translate_stochparse(stochastic_py):
+    """stochastic.py: Stochastic.__init__ -> Src/SrcStochParse.v (every string expression and decision of the object parser)"""
+    mod = ast.parse(open(stochastic_py).read())
+    fn = _method(_class(mod, "Stochastic"), "__init__", [])
+    if [a.arg for a in fn.args.args] != ["self", "big_smiles_ext", "res_id_prefix"] or fn.args.defaults:
+        raise Unsupported("signature of Stochastic.__init__")
+    sk, ts, vs = skeleton_v(fn, STOCH_VALUES)
+    if not same_skeleton(sk, STOCH_INIT_SKELETON) or len(ts) != 10 or len(vs) != 15:
+        import difflib
+        d = [l for l in difflib.unified_diff(STOCH_INIT_SKELETON.split("\n"), sk.split("\n"), lineterm="", n=0) if not l.startswith(("---", "+++", "@@"))]
+        raise Unsupported("statement skeleton of Stochastic.__init__ changed: " + " / ".join(d[:6]))
+    # middle_text[<position>] == '}' : the position is translated on its own
+    t2 = ts[2]
+    if not (isinstance(t2, ast.Compare) and len(t2.ops) == 1 and isinstance(t2.left, ast.Subscript) and ast.unparse(t2.left.value) == "middle_text"):
+        raise Unsupported("the empty-object probe of Stochastic.__init__")
+    env = Env({"i": ("i", "Z")},
+              {"big_smiles_ext": ("text", "str"), "self._raw_text": ("raw", "str"), "middle_text": ("middle", "str"), "end_text": ("tail", "str"),
+               "distribution_text": ("dt", "str"), "ru": ("p", "str"), "eg": ("p", "str")},
+              {"self._raw_text[0]": ("c0", "char"), "middle_text[i]": ("c", "char"), ast.unparse(t2.left): ("c1", "char")})
+    probe_pos, pty = env.term(t2.left.slice)
+    if pty != "Z":
+        raise Unsupported("probe position type")
+    if ast.dump(ts[6]).replace("'ru'", "'eg'") != ast.dump(ts[7]) or ast.dump(vs[10][1]).replace("'ru'", "'eg'") != ast.dump(vs[11][1]):
+        raise Unsupported("the two token-list loops of Stochastic.__init__ differ")
+    def val(k, ty):
+        t, got = env.term(vs[k][1])
+        if got != ty:
+            raise Unsupported(f"value {k} of Stochastic.__init__ has type {got}")
+        return t
+    T = [env.truth(t) for t in ts]
+    out = [
+        "(* generated by harness/translate_sys.py from stochastic.py (Stochastic.__init__) -- do not edit *)",
+        "From Coq Require Import List ZArith Ascii String Bool.",
+        "From GBS Require Import Model.PyStr Model.Num Model.Bond.",
+        "Import ListNotations. Open Scope Z_scope.",
+        "(* text: big_smiles_ext; raw: self._raw_text; middle: middle_text; c0 / c1 / c: raw[0], the probed character, middle[i]; tail: end_text;",
+        "   p: one piece of a token list; dt: distribution_text *)",
+        f"Definition st_raw (text : str) : str := {val(0, 'str')}.",
+        f"Definition st_not_open (c0 : ascii) : bool := {T[0]}.",
+        f"Definition st_no_close (raw : str) : bool := {T[1]}.",
+        f"Definition st_middle (raw : str) : str := {val(1, 'str')}.",
+        f"Definition st_probe_pos (middle : str) : Z := {probe_pos}.",
+        f"Definition st_probe_close (c1 : ascii) : bool := {T[2]}.",
+        f"Definition st_left_unterminated (middle : str) : bool := {T[3]}.",
+        f"Definition st_left_text (middle : str) : str := {val(2, 'str')}.",
+        f"Definition st_left_pre (middle : str) : str := {val(3, 'str')}.",
+        f"Definition st_right_start (middle : str) : Z := {val(4, 'Z')}.",
+        f"Definition st_right_text (middle : str) (i : Z) : str := {val(5, 'str')}.",
+        f"Definition st_back_continues (i : Z) (c : ascii) : bool := {T[4]}.",
+        f"Definition st_right_pre (middle : str) (i : Z) : str := {val(6, 'str')}.",
+        f"Definition st_has_end (middle : str) : bool := {T[5]}.",
+        f"Definition st_rep_text_with_end (middle : str) : str := {val(7, 'str')}.",
+        f"Definition st_end_text (middle : str) : str := {val(8, 'str')}.",
+        f"Definition st_rep_text_no_end (middle : str) : str := {val(9, 'str')}.",
+        f"Definition st_piece (p : str) : str := {val(10, 'str')}.",
+        f"Definition st_piece_nonempty (p : str) : bool := {T[6]}.",
+        f"Definition st_tail (raw : str) : str := {val(12, 'str')}.",
+        f"Definition st_has_mix (tail : str) : bool := {T[8]}.",
+        f"Definition st_dist_text_mix (tail : str) : str := {val(13, 'str')}.",
+        f"Definition st_dist_text (tail : str) : str := {val(14, 'str')}.",
+        f"Definition st_has_dist (dt : str) : bool := {T[9]}.",
+    ]
+    return "\n".join(out) + "\n"
+
+
+SYSINIT_SKELETON = '''self._raw_text = VAL0
+self._res_id_prefix = 0
+self._molecules = []
+text = VAL1
+res_id_counter = 0
+while TEST0:
+    end_pos = VAL2
+    if TEST1:
+        raise RuntimeError
+    self._molecules.append(Molecule(text[:end_pos], self._res_id_prefix + res_id_counter))
+    res_id_counter += len(self._molecules[-1].residues)
+    text = VAL3
+if TEST2:
+    mol = Molecule(text)
+    self._molecules.append(mol)
+self._generable = _estimate_system_molecular_weight(self._molecules, system_molweight)'''
+
+def translate_sysparse(system_py):
+    """system.py: System.__init__ -> Src/SrcSysParse.v (the splitting loop)"""
+    mod = ast.parse(open(system_py).read())
+    fn = _method(_class(mod, "System"), "__init__", [])
+    if [a.arg for a in fn.args.args] != ["self", "big_smiles_ext", "system_molweight"] or [ast.unparse(d) for d in fn.args.defaults] != ["None"]:
+        raise Unsupported("signature of System.__init__")
+    sk, ts, vs = skeleton_v(fn, {"self._raw_text", "end_pos", "text"})
+    if not same_skeleton(sk, SYSINIT_SKELETON) or len(ts) != 3 or len(vs) != 4:
+        raise Unsupported("statement skeleton of System.__init__ changed: " + sk.replace("\n", " / ")[:300])
+    if ast.unparse(vs[1][1]) != "copy.copy(self._raw_text)":
+        raise Unsupported("System.__init__: the working text is not a copy of the stripped input")
+    env = Env({"end_pos": ("end_pos", "Z")}, {"big_smiles_ext": ("input", "str"), "text": ("text", "str")})
+    def val(k, ty):
+        t, got = env.term(vs[k][1])
+        if got != ty:
+            raise Unsupported(f"value {k} of System.__init__ has type {got}")
+        return t
+    out = [
+        "(* generated by harness/translate_sys.py from system.py (System.__init__) -- do not edit *)",
+        "From Coq Require Import List ZArith Ascii String Bool.",
+        "From GBS Require Import Model.PyStr Model.Num Model.Bond.",
+        "Open Scope Z_scope.",
+        f"Definition sp_raw (input : str) : str := {val(0, 'str')}.",
+        f"Definition sp_continues (text : str) : bool := {env.truth(ts[0])}.",
+        f"Definition sp_end_pos (text : str) : Z := {val(2, 'Z')}.",
+        f"Definition sp_unclosed (end_pos : Z) : bool := {env.truth(ts[1])}.",
+        f"Definition sp_rest (text : str) (end_pos : Z) : str := {val(3, 'str')}.",
+        f"Definition sp_last_piece (text : str) : bool := {env.truth(ts[2])}.",
+    ]
+    return "\n".join(out) + "\n"
+
+
 def _power_expr(e):
     """arithmetic over a : Q and k : nat with integer powers (a ** 2, x ** (k - 1))"""
     if isinstance(e, ast.Name) and e.id == "a":
@@ -913,3 +1783,9 @@ if __name__ == "__main__":
     print(translate_gen(base + "/stochastic.py"))
     print(translate_generable(base + "/stochastic.py"))
     print(translate_distlaw(base + "/distribution.py"))
+    print(translate_attach(base + "/mol_gen.py"))
+    print(translate_rgraph(base + "/molecule.py"))
+    print(translate_descr(base + "/bond.py"))
+    print(translate_token(base + "/token.py"))
+    print(translate_stochparse(base + "/stochastic.py"))
+    print(translate_sysparse(base + "/system.py"))
